@@ -36,6 +36,8 @@ def recompute_totals(doc_in, doc_out, push0, only_contract=None):
 def check_totals(run, doc, opts, res, label):
     """reconcile the printed totals of one CLI run; returns 1 if reconciled"""
     push0 = "-push0" not in opts
+    if clirun.watchdog(res, run, label):
+        return 0
     tot = res.totals()
     if res.rc != 0 or tot is None:
         run.witness("CLI run failed (rc=%s) while reconciling totals" % res.rc,
